@@ -80,6 +80,10 @@ Definition C12_repaired : bool := recycle_keeps_inflight || define_rejects_infli
      _holding;
    - a list whose writes of _holding / step_resource are all under `not in_flight` (the only lists for which
      the translator sets recycle_keeps_inflight) returns a row in flight exactly as it got it. *)
+Theorem C12_mark_pending_translated : forall s,
+  mark_pending_writes (code s) = if sstate_eqb s Running || sstate_eqb s Checking then None else Some code_PENDING.
+Proof. exact mark_pending_translated. Qed.
+
 Theorem C12_mark_pending_frame : forall z,
   cmds (mark_pending_row z) = cmds z /\ rclaims (mark_pending_row z) = rclaims z /\
   (in_flight z = true -> mark_pending_row z = z) /\
